@@ -57,19 +57,21 @@ func cat(ts ...tmpl) tmpl {
 	return out
 }
 
-// dirty features: constructs the pinned tree is known to get wrong. A clean
-// case contains none; a dirty case is allowed exactly one of them.
+// dirty features: constructs the tree is known to get wrong (open findings). A
+// clean case contains none; a dirty case is allowed exactly one of them.
 var dirtyFeatures = []string{
-	"caret", "tab-colinc", "tab-default", "tab-in-block", "amp-in-block",
-	"radix", "english", "charparam", "nonint", "case-word", "upper-v", "nonascii",
-	"cond-bignum", "proc-nil", "v-nil", "plus-param", "octet",
+	"caret", "tab-colinc", "tab-default", "tab-in-block", "amp-in-block", "case-word", "nonascii",
 }
 
-// repaired in /repo since the pinned tree (findings with status "fixed: ..."):
-// generated freely in the clean stream again.
-var repairedFeatures = map[string]bool{
-	"nest-same": true, "nest-param": true, "nest-close-colon": true, "sep-struct": true, "tilde-param": true, "empty-string": true,
-	"tab-colinc-0": true, // 62dc4c3
+// repaired in /repo (findings with status "fixed: ..."): generated freely in
+// the clean stream again, each with the share given here (1 in n of the places
+// where it can occur).
+var repairedFeatures = map[string]int{
+	"nest-same": 2, "nest-param": 2, "nest-close-colon": 2, "sep-struct": 2, "tilde-param": 2, "empty-string": 2,
+	"tab-colinc-0": 2, // 62dc4c3
+	// round 3 repairs: 2fb00e6 86120c1 8cdb63c 5de4915 fa90c6c 02ef7a0 6640fd9 0d6d9f2 a05cc9c 7ccbe9e
+	"charparam": 3, "plus-param": 6, "upper-v": 4, "v-nil": 1, "radix": 4, "proc-nil": 2, "cond-bignum": 2, "octet": 4,
+	"nonint": 8, "english": 1,
 }
 
 // G generates templates.
@@ -79,11 +81,11 @@ type G struct {
 	hit   *bool // the dirty feature was actually used (shared by copies of G)
 }
 
-func (g *G) allow(f string) bool { return repairedFeatures[f] || g.dirty == f }
+func (g *G) allow(f string) bool { return 0 < repairedFeatures[f] || g.dirty == f }
 
 func (g *G) use(f string) bool {
-	if repairedFeatures[f] {
-		return g.r.IntN(2) == 0
+	if n := repairedFeatures[f]; 0 < n {
+		return g.r.IntN(n) == 0
 	}
 	if g.dirty == f && (!*g.hit || g.r.IntN(3) == 0) {
 		*g.hit = true
@@ -265,7 +267,7 @@ type pslot struct {
 	hashOK  bool
 	hashMix bool // # is drawn in a mixture (where any number of arguments left is a legal value)
 	p       int  // chance in 100 that the slot is given
-	noNil   bool // a v parameter given nil is a known finding for this directive
+	noNil   bool // no nil v here: it would meet an open finding (~T: the default column) or is undefined (~R: no radix but other parameters)
 }
 
 var cleanPadChars = []rune("0 .-_+!;\"")
@@ -334,7 +336,7 @@ func (g *G) params(slots []pslot) (string, []func(r *rand.Rand) ref.Val) {
 				nilP = 3
 			}
 			if s.kind == 'n' {
-				nilOK := !s.noNil || g.use("v-nil")
+				nilOK := !s.noNil
 				pre = append(pre, func(r *rand.Rand) ref.Val {
 					if r.IntN(nilP) == 0 && nilOK {
 						return nilv()
@@ -419,7 +421,7 @@ func (g *G) mincolSlot() pslot {
 // intDirFor renders an integer directive; the caller supplies the argument.
 func (g *G) intDirText() (string, []func(r *rand.Rand) ref.Val) {
 	if g.use("radix") {
-		ptxt, pre := g.params([]pslot{{kind: 'n', lo: 2, hi: 36, p: 100}, g.mincolSlot(), {kind: 'c', p: 30}, {kind: 'c', p: 30}, {kind: 'n', lo: 1, hi: 4, p: 30, hashMix: true}})
+		ptxt, pre := g.params([]pslot{{kind: 'n', lo: 2, hi: 36, p: 100, noNil: true}, g.mincolSlot(), {kind: 'c', p: 30}, {kind: 'c', p: 30}, {kind: 'n', lo: 1, hi: 4, p: 30, hashMix: true}})
 		return "~" + ptxt + g.mods(true, true) + g.letter('r'), pre
 	}
 	// (# as the comma interval is at least 1: the integer itself is still to come)
@@ -542,7 +544,7 @@ func (g *G) simpleDir(inBlock bool) tmpl {
 	if ch == '&' && inBlock && !g.use("amp-in-block") {
 		ch = '%'
 	}
-	ptxt, pre := g.params([]pslot{{kind: 'n', lo: 0, hi: 3, hashOK: true, p: 40, noNil: true}})
+	ptxt, pre := g.params([]pslot{{kind: 'n', lo: 0, hi: 3, hashOK: true, p: 40}})
 	if ch == '~' && ptxt != "" && inBlock && !g.use("tilde-param") {
 		ptxt, pre = "", nil
 	}
@@ -664,11 +666,14 @@ func (g *G) starDir() tmpl {
 	// v-parameter skip: ~v* consumes the count and then skips
 	k := r.IntN(3)
 	gg := *g
+	nilCount := k == 1 && r.IntN(2) == 0 // a nil count is an omitted one: skip 1
 	return tmpl{text: "~v*", n: k + 1, inst: func(r *rand.Rand) []ref.Val {
-		// (a nil count is the v-nil finding; not generated here)
 		h := gg
 		h.r = r
 		vs := []ref.Val{iv(int64(k))}
+		if nilCount {
+			vs[0] = nilv()
+		}
 		for i := 0; i < k; i++ {
 			vs = append(vs, h.genAny())
 		}
